@@ -64,6 +64,7 @@ ListenerViolations(h, complete) ==
   \cup (IF L2(h) THEN {} ELSE {"L2 a consumed or rejected connection was delivered to Accept"})
   \cup (IF L3(h) THEN {} ELSE {"L3 the consumer did not read the stream intact from the first unconsumed byte"})
   \cup (IF L4(h) THEN {} ELSE {"L4 a connection was closed by layer4 before being delivered"})
+  \cup (IF Idx(h, "Stuck") = {} THEN {} ELSE {"L12 the consumer of a delivered connection had not reached the end of its stream 20 s after the client had finished"})
   \cup (IF L8(h) THEN {} ELSE {"L8 a TLS-terminated connection was delivered without its TLS connection state"})
   \cup (IF L9(h) THEN {} ELSE {"L9 a connection came out of another listener's Accept than the one it was accepted on"})
   \cup (IF ~complete \/ L10(h) THEN {} ELSE {"L10 a connection offered on an open listener was not delivered"})
